@@ -226,6 +226,8 @@ impl FarmGen {
             // long farms: with a small budget the per-epoch rate is small and the part of the
             // budget lost to rounding can exceed it
             3 => Some(s + self.rng.gen_range(30..400)),
+            // practically open-ended farms: nothing bounds the end epoch
+            4 if self.rng.gen_bool(0.4) => Some(*[300_000_000_000_000u64, u64::MAX / 2, u64::MAX - 1, u64::MAX].choose(&mut self.rng).unwrap()),
             _ => Some(s + self.rng.gen_range(2..12)),
         };
         let long = end.map(|e| e > s + 20).unwrap_or(false);
@@ -391,7 +393,8 @@ impl FarmGen {
             return None;
         }
         let amount = self.lp_amount(bal).min(bal);
-        Some(pos_op(&sender, PositionAction::Expand { identifier: p.identifier.clone() }, vec![coin(amount, p.lp_asset.denom.clone())]))
+        let id = self.ident(&p.identifier);
+        Some(pos_op(&sender, PositionAction::Expand { identifier: id }, vec![coin(amount, p.lp_asset.denom.clone())]))
     }
 
     fn gen_pos_close(&mut self, w: &World, f: &FObs) -> Option<Op> {
@@ -442,7 +445,18 @@ impl FarmGen {
             self.script.push_back(pos_op(&sender, PositionAction::Close { identifier: p.identifier.clone(), lp_asset }, vec![]));
             return Some(claim_op(&sender, None));
         }
-        Some(pos_op(&sender, PositionAction::Close { identifier: p.identifier.clone(), lp_asset }, vec![]))
+        let id = self.ident(&p.identifier);
+        Some(pos_op(&sender, PositionAction::Close { identifier: id, lp_asset }, vec![]))
+    }
+
+    /// the identifier as the contract stores it, or now and then as a caller might type it:
+    /// without the contract's "u-" / "p-" prefix
+    fn ident(&mut self, stored: &str) -> String {
+        if self.rng.gen_range(0..12) == 0 {
+            stored.trim_start_matches("u-").trim_start_matches("p-").to_string()
+        } else {
+            stored.to_string()
+        }
     }
 
     fn gen_withdraw(&mut self, w: &World, f: &FObs, emergency: bool) -> Option<Op> {
@@ -450,7 +464,8 @@ impl FarmGen {
         let p = (*cands.choose(&mut self.rng)?).clone();
         let sender = if self.rng.gen_range(0..8) == 0 { self.user(w) } else { p.receiver.clone() };
         let e = if emergency { Some(true) } else if self.rng.gen_bool(0.5) { None } else { Some(false) };
-        Some(pos_op(&sender, PositionAction::Withdraw { identifier: p.identifier.clone(), emergency_unlock: e }, vec![]))
+        let id = self.ident(&p.identifier);
+        Some(pos_op(&sender, PositionAction::Withdraw { identifier: id, emergency_unlock: e }, vec![]))
     }
 
     fn gen_claim(&mut self, w: &World, f: &FObs) -> Option<Op> {
